@@ -354,23 +354,35 @@ fn bridge_outputs(reg: &Registry, c: &Case) -> Result<(), (&'static str, String)
     let mut bytes = vec![];
     enc_c(reg, "Event", &c.value, &mut bytes).map_err(|e| ("codec", e))?;
     let bridge = crux_core::bridge::Bridge::<App>::new(crux_core::Core::new());
-    let out = bridge.process_event(&bytes).map_err(|e| ("core-rejects-valid", format!("the bridge rejects a schema-valid event: {e}")))?;
-    let fmt = serde_reflection::Format::Seq(Box::new(serde_reflection::Format::TypeName("Request".into())));
-    let mut rd = Rd { b: &out, i: 0 };
-    let v = wire::dec_f(reg, &fmt, &mut rd).map_err(|e| ("schema-cannot-decode", format!("requests returned by the bridge do not decode under the schema: {e}")))?;
-    if rd.i != out.len() {
-        return Err(("left-over-bytes", format!("{} bytes left over after decoding the bridge's requests", out.len() - rd.i)));
+    // half of the cases reach the bridge after an earlier interaction whose output was large (a 20 kB
+    // view): what the bridge emits must decode under the schema at every point of a history, not only
+    // on a fresh instance; and every case sends its event twice
+    let after_large_output = vkit::fnv(&bytes) % 2 == 0;
+    if after_large_output {
+        let big = opts().serialize(&Event::Text { s: "x".repeat(20_000), n: None }).map_err(|e| ("codec", e.to_string()))?;
+        bridge.process_event(&big).map_err(|e| ("bridge", e.to_string()))?;
+        bridge.view().map_err(|e| ("view", e.to_string()))?;
     }
-    let mut re = vec![];
-    wire::enc_f(reg, &fmt, &v, &mut re).map_err(|e| ("codec", e))?;
-    if re != out {
-        return Err(("reencode-differs", "bridge requests re-encode differently".into()));
-    }
-    let view = bridge.view().map_err(|e| ("view", e.to_string()))?;
-    let mut rd = Rd { b: &view, i: 0 };
-    dec_c(reg, "ViewModel", &mut rd).map_err(|e| ("schema-cannot-decode", format!("the view does not decode under the schema: {e}")))?;
-    if rd.i != view.len() {
-        return Err(("left-over-bytes", "bytes left over after decoding the view".into()));
+    for round in 0..2 {
+        let at = if round == 0 && !after_large_output { String::new() } else { format!(" (interaction {} on one bridge{})", round + 1 + after_large_output as usize, if after_large_output { ", after a 20 kB view" } else { "" }) };
+        let out = bridge.process_event(&bytes).map_err(|e| ("core-rejects-valid", format!("the bridge rejects a schema-valid event{at}: {e}")))?;
+        let fmt = serde_reflection::Format::Seq(Box::new(serde_reflection::Format::TypeName("Request".into())));
+        let mut rd = Rd { b: &out, i: 0 };
+        let v = wire::dec_f(reg, &fmt, &mut rd).map_err(|e| ("schema-cannot-decode", format!("requests returned by the bridge do not decode under the schema{at}: {e}")))?;
+        if rd.i != out.len() {
+            return Err(("left-over-bytes", format!("{} bytes left over after decoding the bridge's requests{at}", out.len() - rd.i)));
+        }
+        let mut re = vec![];
+        wire::enc_f(reg, &fmt, &v, &mut re).map_err(|e| ("codec", e))?;
+        if re != out {
+            return Err(("reencode-differs", format!("bridge requests re-encode differently{at}")));
+        }
+        let view = bridge.view().map_err(|e| ("view", e.to_string()))?;
+        let mut rd = Rd { b: &view, i: 0 };
+        dec_c(reg, "ViewModel", &mut rd).map_err(|e| ("schema-cannot-decode", format!("the view does not decode under the schema{at}: {e}")))?;
+        if rd.i != view.len() {
+            return Err(("left-over-bytes", format!("bytes left over after decoding the view{at}")));
+        }
     }
     Ok(())
 }
